@@ -464,6 +464,15 @@ fn run_session(c: &Case, obs: &mut Obs, para_epoch: &mut bool) -> Result<(), Fai
             return Ok(());
         }
     };
+    // a second live document on the same thread, edited once before the session: whatever the session does to its
+    // own document, this one must not move (state shared between documents through statics or thread-locals)
+    let bystander = Deb822::from_str("Section: net\nPriority: optional").ok();
+    if let Some(b) = &bystander {
+        if let Some(mut p) = b.paragraphs().next() {
+            p.set("Zz", "1");
+        }
+    }
+    let bystander_text = bystander.as_ref().map(|b| b.to_string());
     let mut last_owner = Owner::C04;
     let mut last_op = "init".to_string();
     let mut last_pre = "init".to_string();
@@ -742,6 +751,11 @@ fn run_session(c: &Case, obs: &mut Obs, para_epoch: &mut bool) -> Result<(), Fai
     if mutated && aliased {
         let s = serde_json::to_string(c).unwrap();
         obs.nontrivial = Some(key_of(&[&s]));
+    }
+    if let (Some(b), Some(t)) = (&bystander, &bystander_text) {
+        if t != "Section: net\nPriority: optional\nZz: 1\n" || &b.to_string() != t {
+            return Err(Fail { also_c05: false, owner: last_owner, clause: "locality", op: "bystander-document".into(), pre: "second-live-document".into(), detail: format!("another document on the same thread, last edited before the session, read {:?} then and reads {:?} now", t, b.to_string()) });
+        }
     }
     Ok(())
 }
